@@ -16,6 +16,7 @@ import (
 	"time"
 
 	"github.com/imroc/req/v3/http2"
+	"github.com/imroc/req/v3/internal/http3"
 	"github.com/imroc/req/v3/internal/verifh"
 	qhttp3 "github.com/quic-go/quic-go/http3"
 )
@@ -227,20 +228,15 @@ func c02CountSpec(s *verifh.Session, sp *c02Spec, mode c02Mode) {
 	}
 }
 
-// c02SetH3TLS makes the HTTP/3 round tripper accept the test certificate. The shared
-// Options.TLSClientConfig is set through the public API; because of DESIGN §5 row 15 (the
-// HTTP/3 round tripper reads its own, never-set field) the same config is also stored in that
-// field when it exists.
-func c02SetH3TLS(cl *Client) {
-	cl.EnableInsecureSkipVerify()
-	t3 := cl.GetTransport().t3
-	if t3 == nil {
-		return
+// c02H3 returns the client's HTTP/3 round tripper (nil when HTTP/3 is not enabled), found by its
+// TYPE among the Transport's fields, not by the field's name.
+func c02H3(cl *Client) *http3.RoundTripper {
+	f, ok := c02FieldOfType(cl.GetTransport(), reflect.TypeOf((*http3.RoundTripper)(nil)))
+	if !ok {
+		return nil
 	}
-	v := reflect.ValueOf(t3).Elem().FieldByName("TLSClientConfig")
-	if v.IsValid() && v.CanSet() && v.Type() == reflect.TypeOf((*tls.Config)(nil)) {
-		v.Set(reflect.ValueOf(&tls.Config{InsecureSkipVerify: true}))
-	}
+	rt, _ := f.Interface().(*http3.RoundTripper)
+	return rt
 }
 
 func TestVerif_C02_e2eh3(t *testing.T) {
@@ -283,16 +279,15 @@ func TestVerif_C02_e2eh3(t *testing.T) {
 		if cl == nil || r.Intn(20) == 0 {
 			if cl != nil {
 				cl.GetTransport().CloseIdleConnections()
-				if t3 := cl.GetTransport().t3; t3 != nil {
+				if t3 := c02H3(cl); t3 != nil {
 					t3.Close()
 				}
 			}
-			cl = C().SetTimeout(10 * time.Second)
+			cl = C().SetTimeout(10 * time.Second).EnableInsecureSkipVerify()
 			cl.EnableForceHTTP3()
-			if cl.GetTransport().t3 == nil {
+			if c02H3(cl) == nil {
 				t.Fatalf("HTTP/3 not enabled (needs go1.22/1.23)")
 			}
-			c02SetH3TLS(cl)
 			autoDecomp = r.Intn(6) == 0
 			if autoDecomp {
 				cl.EnableAutoDecompress()
@@ -336,7 +331,7 @@ func TestVerif_C02_e2eh3(t *testing.T) {
 		s.Observe(human+" #"+strconv.Itoa(c), ok, class, sp.bodyAllowed() && len(sp.body) > 0, human, detail)
 	}
 	if cl != nil {
-		if t3 := cl.GetTransport().t3; t3 != nil {
+		if t3 := c02H3(cl); t3 != nil {
 			t3.Close()
 		}
 	}
